@@ -269,6 +269,10 @@ func (o *Opts) pluginConfig() *Node {
 		}
 		m.Set(k, o.AnyValue("plugin.cfg", 1))
 	}
+	// numeric identifiers are common in configurations, 64-bit ones included
+	if t.Draw(6, "plugin:cfgid") == 5 && !m.Has("release_id") {
+		m.Set("release_id", Int([]int64{9007199254740993, -9007199254740993, 9223372036854775807, 1 << 62, 9007199254740991, 1234567}[t.Draw(6, "plugin:cfgidv")]))
+	}
 	return m
 }
 
